@@ -35,6 +35,7 @@ import gen_tables as G  # noqa: E402
 STACK = "stack"
 FUNCTION_NAMES = {"function_A": 0, "function_B": 1, "function_C": 2}
 DYNAMIC_EVAL = {"eval", "exec", "globals", "locals", "vars", "compile", "__import__"}
+SAFE_EVAL_NAMES = {"datetime", "math", "string", "sympy"}   # modules whose attributes may feed eval()
 
 
 # ----------------------------------------------------------------------------
@@ -85,8 +86,9 @@ class Tr:
             if isinstance(n, ast.Constant) and isinstance(n.value, str) and re.search(r"\bstacks?\b", n.value) and self._in_dynamic(node, n):
                 return True
             if isinstance(n, ast.Call) and isinstance(n.func, ast.Name) and n.func.id in DYNAMIC_EVAL:
-                # eval/exec over data that involves template locals can name `stack`
-                if any(isinstance(m, ast.Name) and m.id in self.locals for a in list(n.args) + [k.value for k in n.keywords] for m in ast.walk(a)):
+                # eval/exec over anything but constants and module attributes (data from the
+                # stack, the context, a function result) can name `stack`
+                if any(isinstance(m, ast.Name) and m.id not in SAFE_EVAL_NAMES for a in list(n.args) + [k.value for k in n.keywords] for m in ast.walk(a)):
                     return True
                 if n.func.id in ("globals", "locals", "vars"):
                     return True
